@@ -212,12 +212,14 @@ Definition expected_handler (d : descr) : handler :=
    input i: execution stops at the first assertion whose relation is false (the test FAILS for
    i), at the first assumption that does not hold (i is REJECTED: neither pass nor fail), or at
    a cheatcode the tool under verification does not support (no verdict may be claimed for i:
-   it must be neither passed nor dropped silently). *)
+   it must be neither passed nor dropped silently).  Ordinary control flow between the calls --
+   a two-way branch on any condition whose sides rejoin -- changes nothing for a single input. *)
 Section SeqSpec.
   Variable Input : Type.
   Inductive pstep :=
     | PAssert (c : Input -> bool)
     | PAssume (c : Input -> bool)
+    | PBranch (c : Input -> bool)
     | PUnsupported.
   Inductive verdict := VPass | VFail | VRejected | VUnsupported.
   Fixpoint foundry_run (i : Input) (p : list pstep) : verdict :=
@@ -225,6 +227,7 @@ Section SeqSpec.
     | [] => VPass
     | PAssert c :: r => if c i then foundry_run i r else VFail
     | PAssume c :: r => if c i then foundry_run i r else VRejected
+    | PBranch _ :: r => foundry_run i r
     | PUnsupported :: _ => VUnsupported
     end.
 End SeqSpec.
